@@ -265,6 +265,28 @@ pub struct FlatMap {
     #[serde(flatten)]
     rest: BTreeMap<String, u64>,
 }
+/// Map keys that are unit variants of an enum, behind serde's content buffering: the keys of a
+/// flattened map reach the key type as buffered *identifiers*, those of an internally tagged
+/// variant as buffered `deserialize_any` content.
+#[derive(Serialize, Deserialize, Debug, PartialEq, Eq, PartialOrd, Ord, Clone, Copy)]
+pub enum KeyKind {
+    Alpha,
+    Beta,
+    #[serde(rename = "gamma-key-with-a-name-longer-than-23-bytes")]
+    Gamma,
+}
+#[derive(Serialize, Deserialize, Debug)]
+pub struct FlatEnumMap {
+    id: u32,
+    #[serde(flatten)]
+    rest: BTreeMap<KeyKind, u64>,
+}
+#[derive(Serialize, Deserialize, Debug)]
+#[serde(tag = "t")]
+pub enum IntTagEnumKeys {
+    M { m: BTreeMap<KeyKind, u8> },
+    N,
+}
 #[derive(Serialize, Deserialize, Debug)]
 pub struct Renamed {
     #[serde(rename = "x-y")]
@@ -553,6 +575,11 @@ stype!(KfUntaggedUnitVariant, false, |r| if r.bool() { KfUntaggedUnitVariant::N(
 stype!(KfUntaggedUnitValue, false, |r| if r.bool() { KfUntaggedUnitValue::N(g(r)) } else { KfUntaggedUnitValue::U(()) }, |s| variant_name(s));
 stype!(KfUntaggedChar, false, |r| if r.bool() { KfUntaggedChar::S { s: g(r) } } else { KfUntaggedChar::C(g(r)) }, |s| variant_name(s));
 stype!(KfIntTagChar, false, |r| if r.bool() { KfIntTagChar::A { n: g(r) } } else { KfIntTagChar::C { c: g(r) } }, |s| variant_name(s));
+fn gen_key_kind(r: &mut Rng) -> KeyKind {
+    *r.pick(&[KeyKind::Alpha, KeyKind::Beta, KeyKind::Gamma])
+}
+stype!(FlatEnumMap, false, |r| FlatEnumMap { id: g(r), rest: (0..r.below(4)).map(|_| (gen_key_kind(r), g(r))).collect() });
+stype!(IntTagEnumKeys, false, |r| if r.chance(3, 4) { IntTagEnumKeys::M { m: (0..r.below(4)).map(|_| (gen_key_kind(r), g(r))).collect() } } else { IntTagEnumKeys::N }, |s| variant_name(s));
 stype!(KfFlatChar, false, |r| KfFlatChar { a: g(r), i: KfFlatCharInner { c: g(r) } });
 stype!(KfIntTagUnitField, false, |r| if r.bool() { KfIntTagUnitField::A { n: g(r) } } else { KfIntTagUnitField::U { u: () } }, |s| variant_name(s));
 stype!(KfFlatUnit, false, |r| KfFlatUnit { a: g(r), i: KfFlatUnitInner { u: () } });
@@ -572,7 +599,7 @@ stype_subj!(u8, u16, u32, u64, i8, i16, i32, i64, bool, char, f32, f64, String, 
 macro_rules! for_each_stype {
     ($m:ident) => {
         $m!(Ints); $m!(Scalars); $m!(Texts); $m!(UnitStruct); $m!(Newtype); $m!(TupleStruct); $m!(Nested); $m!(Seqs); $m!(Maps);
-        $m!(Ext); $m!(WithEnums); $m!(IntTag); $m!(AdjTag); $m!(Untagged); $m!(Flat); $m!(FlatFloats); $m!(UntaggedFloats); $m!(IntTagFloats); $m!(FlatMap); $m!(Renamed); $m!(LongNames); $m!(LongVariants); $m!(StdTypes);
+        $m!(Ext); $m!(WithEnums); $m!(IntTag); $m!(AdjTag); $m!(Untagged); $m!(Flat); $m!(FlatFloats); $m!(UntaggedFloats); $m!(IntTagFloats); $m!(FlatMap); $m!(FlatEnumMap); $m!(IntTagEnumKeys); $m!(Renamed); $m!(LongNames); $m!(LongVariants); $m!(StdTypes);
         $m!(KfUntaggedUnitVariant); $m!(KfUntaggedUnitValue); $m!(KfUntaggedChar); $m!(KfIntTagChar); $m!(KfFlatChar); $m!(KfIntTagUnitField); $m!(KfFlatUnit);
         $m!(u8); $m!(u16); $m!(u32); $m!(u64); $m!(i8); $m!(i16); $m!(i32); $m!(i64); $m!(bool); $m!(char); $m!(f32); $m!(f64); $m!(String); $m!(());
         $m!(Option<u8>); $m!(Option<String>); $m!(Vec<u8>); $m!(Vec<String>); $m!((u8, String)); $m!((i64, bool, f32)); $m!([u16; 1]); $m!([u8; 32]);
